@@ -124,7 +124,8 @@ mut("c15_undo_null_no_restore", GM, "        self.halfmove_clock = history.halfm
 PH = "src/engine/eval/phased_eval.rs"
 mut("c16_revert_d8", PH, "let phase_value = i64::from(phase_value).min(PHASE_COUNT_MAX);", "let phase_value = i64::from(phase_value);", ["C16"])
 mut("c16_endgame_carry", PH, "WhiteEval(((self.0 + 0x8000) >> 16) as i16)", "WhiteEval((self.0 >> 16) as i16)", ["C16"])
-mut("c16_mobility_asymmetric", "src/engine/eval/mobility_and_king_safety.rs", None, None, ["C16"])
+mut("c16_mobility_asymmetric", "src/engine/eval/mobility_and_king_safety.rs", "let their_pawns = game.board.pawns(player.other()).forward(player.other());", "let their_pawns = game.board.pawns(player.other()).forward(Player::Black);", ["C16"])
+mut("c16_passed_pawn_mask_asymmetric", "src/engine/eval/pawn_structure.rs", "    let file_right = file.east();\n\n    let relevant_files", "    let file_right = if player == Player::White { file.east() } else { file };\n\n    let relevant_files", ["C16"])
 
 UP = "src/engine/uci/parser.rs"
 mut("c17_promotion_upper_case", "src/chess/moves.rs", "                    PromotionPieceKind::Knight => \"n\",\n                    PromotionPieceKind::Bishop => \"b\",\n                    PromotionPieceKind::Rook => \"r\",\n                    PromotionPieceKind::Queen => \"q\",\n                },\n                None => \"\",\n            }\n        )\n    }\n}\n\n#[cfg(test)]", "                    PromotionPieceKind::Knight => \"N\",\n                    PromotionPieceKind::Bishop => \"b\",\n                    PromotionPieceKind::Rook => \"r\",\n                    PromotionPieceKind::Queen => \"q\",\n                },\n                None => \"\",\n            }\n        )\n    }\n}\n\n#[cfg(test)]", ["C17"])
